@@ -33,6 +33,30 @@ CLAIMED.update({
               "§4 C18"),
 })
 
+CLAIMED.update({
+    "C09": _c("static analysis: unsafe-site inventory with guard dominance on MIR; assertion/re-slice must-pass-through; size constants vs exact bounds",
+              "The memory-safety clause: every unsafe call in the writer crates and `lexical` is classified (guard-dominated, forwarded, named contract, else violation); the radix/table/count assertions and the re-slice dominate every unchecked digit writer; write_float asserts check_buffer and is_valid (in release builds: debug_assert-only tests are not accepted) before any store or back-end; dragonbox_power's argument is the k formula whose range is bounded against the table; FORMATTED_SIZE constants cover the longest numeral; the notation defaults of the writers equal those of buffer_size_const. Sufficiency of the bound for every (value, options) is not decided.",
+              "§4 C09", True),
+    "C10": _c("static analysis: guard dominance with mutation-freedom between guard and use, on MIR of all parse crates; unsafe and panic inventories",
+              "The out-of-bounds clause: all step_unchecked / step_by_unchecked(N) / peek_many_unchecked::<V> / set_cursor sites and all StackVec/ReverseView primitives are shown to be dominated by a guard on the same object giving the needed capacity, with no cursor/length mutation on any path in between; remaining unsafe calls are forwarded inside unsafe fns or named contracts; writers of Bytes.index and StackVec.length are inventoried; explicit panic sites reachable from parse entry points match a reasoned table. Arithmetic-overflow/bounds-check panics and termination are not decided.",
+              "§4 C10"),
+    "C11": _c("static analysis: normalised instruction multisets of sibling bodies under a declared substitution; macro back-traces",
+              "parse_complete/parse_partial and fast_path_complete/fast_path_partial are equal up to the complete->partial callee substitution and pairing results with a count; complete = partial + `count == length`; IS_PARTIAL only selects between errors; the integer algorithms differ only inside the handler macros of the shared algorithm! expansion. The relation over all inputs is not decided.",
+              "§4 C11"),
+    "C13": _c("static analysis: peek dispatch decoded against macro back-traces; per-component field/mask/radix pairing; counting-protocol rules on MIR",
+              "All 16 arms of each component iterator's peek dispatch are decoded with that component's flag bits and matched to the peek_<x>/is_<x>/peek_1|peek_n macros they expand; each iterator counts into its own field, masks with its own mask, classifies digits with the radix the parser uses for that component; Number's digit slices are re-iterated with the same component's iterator; digit-consuming steps are followed by increment_count and counting is gated on buffer-level contiguity. Value preservation over all inputs is not decided.",
+              "§4 C13"),
+    "C15": _c("static analysis: must-pass-through / who-may-produce rules and validator constraint tables on MIR",
+              "Special parsing only on the Err edge of the numeric parse; NAN/INFINITY constants produced only in parse_positive_special, each from its own option string, under the no_special test, sign applied afterwards; the writer's '-' store is control-dependent on needs_negative_sign() = is_sign_negative & !is_nan; a disabled special diverges without a store; both float option builders impose the same constraints on special strings.",
+              "§4 C15"),
+    "C17": _c("static analysis: delegation shape, origin (taint) analysis of stored bytes, validator constraint tables on MIR",
+              "lexical::parse* and all lexical_core wrappers/impls are single forwarding calls (equality for the parse side); to_string* write once into a buffer of the documented size and truncate to exactly the returned length; every byte store in the writer crates has an ASCII origin; option builders reject non-ASCII punctuation and non-letter specials on every Ok path.",
+              "§4 C17"),
+    "C19": _c("static analysis: who-may-read and must-pass-through rules for the lossy flag on MIR",
+              "Options::lossy() is read only in parse_complete/parse_partial, after the grammar has produced its result and after the exact fast path returned, with no error construction or grammar/iterator call afterwards, and flows only into moderate_path: accept/reject, counts, errors and fast-path results cannot depend on it. The one-ULP bound is not decided.",
+              "§4 C19"),
+})
+
 NOT_APPLICABLE = {
     "C06": "Exactness of power-of-two radix float output is arithmetic on runtime exponents (calculate_shl, scale_sci_exp); no table or guard whose truth implies it beyond the digit tables already covered under C03.",
     "C07": "Generic-radix float output is native floating-point digit generation with carry back-tracking; every clause (valid digits, <2048 ulp, exact integers) is a statement about runtime values.",
